@@ -8,7 +8,7 @@
      ProofsPipe  the parent's side of a pipeline
      ProofsScript  nested compound commands, functions, the . built-in, command substitution *)
 From Yv Require Export Common.Base C09.Kernel C09.Model C09.Spec
-  C09.ProofsTab C09.ProofsList C09.ProofsVal C09.ProofsSpec C09.ProofsProgress C09.ProofsOwn C09.ProofsPipe C09.ProofsScript C09.Examples.
+  C09.ProofsTab C09.ProofsList C09.ProofsVal C09.ProofsSpec C09.ProofsProgress C09.ProofsOwn C09.ProofsPipe C09.ProofsScript C09.Symlink C09.Examples.
 
 Local Open Scope N_scope.
 
